@@ -797,6 +797,15 @@ func (k *corruptor) blockOps() {
 			k.expectReject("duplicated", fmt.Sprintf("certificate block %d repeated at the end", i), k.joinWith(hp, p), c.randomMode(small), nil)
 		}
 	}
+	// replaced: block i+1 is a second copy of block i (instance i+1 is missing, the block count and
+	// the last instance still agree with the header)
+	if k.m >= 2 {
+		for _, i := range pick(c.rng, 0, k.m-1, 10) {
+			p := clone()
+			p[i+1] = cp[i]
+			k.expectReject("gap", fmt.Sprintf("certificate block %d replaced by a copy of block %d", i+1, i), k.joinWith(hp, p), c.randomMode(small), nil)
+		}
+	}
 	// surplus certificates beyond the header's latest
 	for r := 0; r < 4; r++ {
 		extra := 1 + c.rng.Intn(3)
